@@ -373,6 +373,9 @@ def run_job(job, root, tmp):
                     if fn and fn.group(1) in allow:
                         continue
                     raise Undecided("verifier warning: " + m)
+        for typ, m in msgs:
+            if typ == "ERROR":
+                raise Undecided("cbmc error: " + m[:300])
         canaries = 0
         for r in results:
             is_canary = "vacuity canary" in r.get("description", "")
